@@ -475,6 +475,43 @@ func checkReaderDiscipline(c *Ctx, p *packages.Package) {
 		}
 		ast.Inspect(fd.Body, walk)
 	})
+	// a method that does nothing but hand on to a loader (`return i.fill(0)`: the call is a top-level statement and no `if`
+	// precedes it) loads just as the loader does
+	for changed := true; changed; {
+		changed = false
+		AllFuncDecls(p, func(fd *ast.FuncDecl) {
+			if fd.Recv == nil || recvName(fd.Recv.List[0].Type) != recv || fd.Body == nil || loaders[fd.Name.Name] || fd == nextB {
+				return
+			}
+			for _, st := range fd.Body.List {
+				if _, isIf := st.(*ast.IfStmt); isIf {
+					return
+				}
+				var e ast.Expr
+				switch x := st.(type) {
+				case *ast.ReturnStmt:
+					if len(x.Results) == 1 {
+						e = x.Results[0]
+					}
+				case *ast.ExprStmt:
+					e = x.X
+				case *ast.AssignStmt:
+					if len(x.Rhs) == 1 {
+						e = x.Rhs[0]
+					}
+				}
+				if call, ok := e.(*ast.CallExpr); ok {
+					if sel, ok := call.Fun.(*ast.SelectorExpr); ok && loaders[sel.Sel.Name] {
+						if fo, ok := info.Uses[sel.Sel].(*types.Func); ok && fo.Pkg() == p.Types {
+							loaders[fd.Name.Name] = true
+							changed = true
+							return
+						}
+					}
+				}
+			}
+		})
+	}
 	// a short read is not the end of the input: the count that places the end marker comes from a fill-or-end read
 	for _, rs := range readSites {
 		c.Check("R19.4", "reader: "+rs.fn+" fills its half or meets the end of the source (io.ReadFull / io.ReadAtLeast, or Read in a loop)", token.NoPos, rs.fills,
